@@ -10,12 +10,12 @@ RULE = ("kinds: steps (non-adaptive method, no intervention: every recorded step
         "implicit methods may shorten only with a logged Newton failure), shift ((t0,tf) vs (t0+c,tf+c) on an autonomous system), "
         "reflect (y'=f(y) on (t0,tf) vs w'=-f(w) on (-t0,-tf)); non-trivial = >=3 full-length steps; distinct by (kind,method,span,dt,shift)")
 ASSUMPTIONS = ["the set of fixed-step methods is computed at run time from is_adaptive", "dt >= 64 ulp of the largest time"]
-FLOORS = {"quick": {"runs_checked": 120, "full_length_steps": 2000, "shift_pairs": 30, "reflect_pairs": 30, "backward_runs": 40},
-          "thorough": {"runs_checked": 1200, "full_length_steps": 20000, "shift_pairs": 300, "reflect_pairs": 300, "backward_runs": 400}}
+FLOORS = {"quick": {"runs_checked": 120, "full_length_steps": 1200, "shift_pairs": 30, "reflect_pairs": 30, "backward_runs": 40, "multi_leg_runs": 12},
+          "thorough": {"runs_checked": 1200, "full_length_steps": 12000, "shift_pairs": 300, "reflect_pairs": 300, "backward_runs": 400, "multi_leg_runs": 120}}
 SPANS = [(0.0, 2.0), (-5.0, 1.0), (-10.0, -5.0), (10.0, 5.0), (1.0, -5.0), (3.0, -3.0), (0.0, -2.0), (-2.0, 0.0), (-0.5, 0.25), (7.0, 7.5), (100.0, 103.0)]
 SHIFTS = [1.0, -1.0, 7.3, -7.3, 1e3, -1e3]
 K = 64
-CASE_TIMEOUT = 900
+CASE_TIMEOUT = 400
 
 
 class Autonomous:
@@ -37,6 +37,19 @@ class Autonomous:
         return out if self.sign > 0 else -out
 
 
+def _legs(rng, nsteps):
+    """0-2 intermediate targets; every leg is at least 1.6 steps long (the property presupposes dt <= span for each call)."""
+    k = int(rng.integers(0, 3))
+    if k == 0 or nsteps < 6:
+        return []
+    for _ in range(20):
+        cuts = sorted(float(x) for x in rng.uniform(0.1, 0.9, k))
+        edges = [0.0] + cuts + [1.0]
+        if min(b - a for a, b in zip(edges[:-1], edges[1:])) * nsteps >= 1.6:
+            return cuts
+    return []
+
+
 def gen_cases(tier, seed):
     M = util.methods()
     rng = rng_for(402, seed)
@@ -53,6 +66,7 @@ def gen_cases(tier, seed):
                 nsteps = float(rng.choice([3.0, 7.5, 16.0, 33.3, 64.0, 120.7]))
                 cases.append(dict(kind="steps", method=name, dtype=str(rng.choice(["float64", "float64", "float32", "longdouble"])) if info["explicit"] else "float64",
                                   span=list(span), dt=float(rng.choice([-1, 1])) * L / nsteps, nsteps=nsteps, pseed=int(rng.integers(1 << 30)),
+                                  legs=_legs(rng, nsteps) if info["explicit"] else [],
                                   cost=(1 if info["explicit"] else 8) * nsteps / 10.0))
     for name in M:
         info = M[name]
@@ -102,7 +116,22 @@ def _steps(spec, info, prob, dtype, eps, t0, tf, d, tol, rec, feats):
     if dt < 64 * eps * max(abs(t0), abs(tf), 1.0):
         rec.skipped = "dt below 64 ulp"
         return rec.out()
-    system, seg, slog = _run(info, prob, prob.y0, t0, tf, spec["dt"], dtype, tol, log=True)
+    legs = spec.get("legs") or []
+    if not legs:
+        system, seg, slog = _run(info, prob, prob.y0, t0, tf, spec["dt"], dtype, tol, log=True)
+        leg_ends = [None]
+    else:
+        # the span is covered by successive integrate(t) calls whose lengths are not multiples of dt: every leg must step with dt again
+        system = sysrun.make_system(prob.rhs, prob.y0.astype(dtype), t0, tf, spec["dt"], info["cls"], **tol)
+        slog = StepLog(system.integrator)
+        leg_ends = []
+        seg = None
+        for fr in legs + [None]:
+            seg = sysrun.call_integrate(system, t=None if fr is None else t0 + fr * (tf - t0), max_steps=100000)
+            leg_ends.append(len(system) - 1)
+            if seg["raised"]:
+                break
+        rec.bump("multi_leg_runs")
     if seg["raised"]:
         cause = getattr(seg["exc"], "__cause__", None)
         if isinstance(cause, sysrun.StepBudgetExceeded):
@@ -121,7 +150,9 @@ def _steps(spec, info, prob, dtype, eps, t0, tf, d, tol, rec, feats):
     tmax = max(1.0, float(np.max(np.abs(t))))
     unit = K * eps * tmax
     dtl = np.longdouble(np.asarray(dt, dtype=dtype))   # the step as representable in the run's precision
-    nfull = int(np.sum(np.abs(steps[:-1] - dtl) <= unit)) if len(steps) > 1 else 0
+    closing = set([len(steps) - 1] + [e - 1 for e in leg_ends if e is not None])     # index of the closing step of every call
+    inner = np.array([i for i in range(len(steps)) if i not in closing], dtype=int)
+    nfull = int(np.sum(np.abs(steps[inner] - dtl) <= unit)) if len(inner) else 0
     rec.bump("full_length_steps", nfull)
     rec.nontrivial = nfull >= 3
     rec.sample = {"spec": spec, "rows": len(t), "first_steps": [float(x) for x in steps[:4]], "last_step": float(steps[-1]) if len(steps) else None}
@@ -139,9 +170,10 @@ def _steps(spec, info, prob, dtype, eps, t0, tf, d, tol, rec, feats):
             g = max(g, float(steps[0] / dtl))
             mech = "controller_grows_step_of_nonadaptive_implicit_method" if g <= 3.0 else "step_longer_than_dt_unexplained"
         rec.violate("fixed_step_longer", mech, feats, at=j, step=float(steps[j]), dt=float(dtl), rows=len(t))
-    shorter = np.nonzero(steps[:-1] < dtl * (1 - K * eps) - unit)[0]
+    shorter = np.array([i for i in inner if steps[i] < dtl * (1 - K * eps) - unit], dtype=int)
     if len(shorter):
         j = int(shorter[0])
+        feats = dict(feats, multi_leg=bool(legs))
         if info["explicit"] or not newton_failed:
             # after a legitimate shortening the following steps restart from the shortened size: only flag when
             # no Newton failure at all was logged in this run
